@@ -216,6 +216,9 @@ def bad_calls(snap: Snap, ctx) -> list[tuple[str, dict]]:
         if not snap.flags["empty"]:
             out.append(("mode/magfield-nonempty", {"op": "set_magnetic_field", "b": [1.0, 0.0, 0.0]}))
         out.append(("mode/magfield-zero", {"op": "set_magnetic_field", "b": [0.0, 0.0, 0.0]}))
+    elif not snap.flags["in_ising"] and not snap.channels:
+        # no mode yet: a refused magnetic field must not switch the sequence to XY
+        out.append(("mode/magfield-zero-on-fresh-sequence", {"op": "set_magnetic_field", "b": [0.0, 0.0, 0.0]}))
     elif snap.flags["in_ising"]:
         for cid, ch in dev.channels.items():
             if ch.basis == "XY":
